@@ -120,7 +120,7 @@ def _on_edge(h, x, a, b, tol):
 def _mk_triangle(signs):
     tag = "".join({-1: "-", 0: "0", 1: "+"}[x] for x in signs)
 
-    @contract("C11", INT + ".mesh_plane", name="one-triangle[signs=%s]" % tag, timeout=60000, max_paths=64)
+    @contract("C11", INT + ".mesh_plane", name="one-triangle[signs=%s]" % tag, timeout=60000, max_paths=64, budget=1200)
     def mesh_plane_triangle(h):
         """modular: the segment end points are the on-plane vertices and the plane_lines
         intersections of exactly the edges whose end points lie strictly on different sides;
